@@ -22,6 +22,7 @@ import (
 	"sort"
 	"strconv"
 	"strings"
+	"sync"
 
 	"github.com/cornelk/hashmap"
 	"github.com/pkg/errors"
@@ -62,6 +63,10 @@ type ClusterNodes struct {
 	passwd          string
 	lastServerNames string
 	serverChanged   bool
+
+	// mu makes the publication of a new topology by the refresher goroutine (ServerMap, Replicasets,
+	// serverChanged) and its adoption by the event loop's ticker mutually exclusive
+	mu sync.Mutex
 }
 
 type ClusterNode struct {
@@ -153,6 +158,8 @@ func (c *ClusterNodes) updateClusterNodes(msg string) error {
 	}
 
 	if c.isChanged(allNodes) {
+		c.mu.Lock()
+		defer c.mu.Unlock()
 		verifTopoPoint("r-clr")
 		c.setServer(allNodes)
 		verifTopoPoint("r-reps0")
